@@ -740,6 +740,13 @@ std::vector<double> GridWavelet::getCandidateConstructionPoints(double tolerance
     MultiIndexSet refine_candidates = getRefinementCanidates(tolerance, criteria, output, level_limits);
     MultiIndexSet new_points = (dynamic_values->initial_points.empty()) ? std::move(refine_candidates) : refine_candidates - dynamic_values->initial_points;
 
+    // samples that are already computed but not yet connected to the grid wait in the construction data, never ask for them again
+    if (!new_points.empty() and !dynamic_values->data.empty()){
+        Data2D<int> parked(num_dimensions, 0);
+        for(auto const &d : dynamic_values->data) parked.appendStrip(d.point);
+        new_points = new_points - MultiIndexSet(parked);
+    }
+
     // compute the weights for the new_points points
     std::vector<double> norm = getNormalization();
 
